@@ -169,7 +169,7 @@ def check_case(ctx, case):
             ctx.violation('no-nugget', 'use_nugget=False but nugget=%r, model(0)=%r' % (descr.get('nugget'), ref[0]), case)
             return
     # scikit-learn wrapper
-    if case['method'] in ('trf', 'lm') and '+' not in model and ctx.rng.random() < 0.4:
+    if case['method'] in ('trf', 'lm') and '+' not in model and ctx.rng.random() < 0.5:
         try:
             with quiet():
                 est = VariogramEstimator(model=model, fit_method=case['method'], fit_sigma=case['fit_sigma'],
@@ -181,6 +181,19 @@ def check_case(ctx, case):
             ctx.count('sklearn_predict')
             if not all_close(pred, ref2, rel=1e-10, abs_=1e-10 * scale):
                 ctx.violation('views-differ', 'VariogramEstimator.predict differs from its variogram', case)
+            else:
+                # the same estimator fitted again (other observations, another model): predict() follows the new fit
+                with quiet():
+                    v2 = np.array(case['values'])[::-1] * 3.0 + 1.0
+                    est.set_params(model='exponential' if model != 'exponential' else 'spherical')
+                    est.fit(np.array(case['coords']), v2)
+                    pred3 = [float(v) for v in est.predict(grid)]
+                    ref3 = [float(est.variogram.fitted_model(h)) for h in grid]
+                ctx.count('sklearn_refit_predict')
+                scale3 = max(1e-12, max(abs(x) for x in ref3))
+                if not all_close(pred3, ref3, rel=1e-10, abs_=1e-10 * scale3):
+                    ctx.violation('views-differ', 'after fitting the same VariogramEstimator again predict() %r differs from its '
+                                  'variogram\'s fitted model %r' % (pred3[:4], ref3[:4]), case)
         except (RuntimeError, ValueError):
             pass
     # ---- the coefficient layout through the model ------------------------------------------------
